@@ -44,6 +44,8 @@ def parseMOp? (ws : List String) : Option MOp :=
   | ["fail", a] => a.toNat?.map .fail
   | ["panic", a] => a.toNat?.map .fail
   | ["abort", a] => a.toNat?.map .abort
+  | ["hold", a] => a.toNat?.map .hold
+  | ["psrelease", a] => a.toNat?.map .psrelease
   | _ => none
 
 def parseStatus? (s : String) : Option Status := Status.all.find? (·.name == s)
@@ -112,6 +114,7 @@ structure Race where
   chain : Bool
   tgt : Nat
   spawnl : Bool
+  kind : String := "link"
   j : Nat
 
 def parseRace? (ws : List String) : Option Race := do
@@ -119,7 +122,7 @@ def parseRace? (ws : List String) : Option Race := do
     (ws.find? (·.startsWith (k ++ "="))).map (fun w => (w.drop (k.length + 1)).toString)
   pure { cause := ← get "cause", nc := ← (← get "nc").toNat?, chain := (get "shape") == some "chain",
          tgt := ((get "tgt").bind (·.toNat?)).getD 0,
-         spawnl := (← get "kind") == "spawnl", j := ← (← get "j").toNat? }
+         spawnl := (← get "kind") == "spawnl", kind := ← get "kind", j := ← (← get "j").toNat? }
 
 /-- what of the supervisor's exit has been executed, read off the names of the schedule points
 that started the executed regions: worklist visits (`tree.take`), the first `status.publish`
@@ -172,20 +175,31 @@ def raceModel (r : Race) (pts : List String) : MState × String × Nat × State 
     setStatus (link (spawn s) (i + 1) (if r.chain then i else 0)).1 (i + 1) .running) s0
   let d := min r.tgt r.nc
   let c := r.nc + 1
-  let s2 := if r.spawnl then spawn s1 else setStatus (spawn s1) c .running
+  let s2 := if r.spawnl then spawn s1 else if r.kind == "unlink" then s1 else setStatus (spawn s1) c .running
   let s3 := if r.cause == "drain" then setStatus s2 0 .draining else s2
   let kill := r.cause == "kill"
   let g := progressOf pts
   let k := stepsFor kill s3 0 g
-  let mid := (link (xrun codeFixed 0 k (xinit kill 0 s3)).t c d).1
-  let (x, res) := raceRun codeFixed kill s3 0 c d k (4 * s3.n + 32)
+  -- the racer's atomic region: link of the orphan / new child under `d`; relink of child 1 under the extra
+  -- root; unlink of child 1 from the exiting supervisor
+  let x1 := xrun codeFixed 0 k (xinit kill 0 s3)
+  let (mid, x, res) :=
+    if r.kind == "relink" then
+      let rr := raceRun codeFixed kill s3 0 1 c k (4 * s3.n + 32)
+      ((link x1.t 1 c).1, rr.1, rr.2)
+    else if r.kind == "unlink" then
+      let t2 := unlink x1.t 1 0
+      (t2, xrun codeFixed 0 (4 * s3.n + 32) ⟨t2, x1.pc⟩, true)
+    else
+      let rr := raceRun codeFixed kill s3 0 c d k (4 * s3.n + 32)
+      ((link x1.t c d).1, rr.1, rr.2)
   let m0 : MState := { t := x.t, act := upd (fun _ => {}) 0 { gone := true } }
   -- spawn_linked: a refused link fails the spawn (the new cell is cleaned up), an accepted one goes on to Running
   let m1 := if r.spawnl then
       (if res then { m0 with t := setStatus m0.t c .running } else exitM codeFixed m0 c)
     else m0
   let m2 := settle codeFixed m1.t.n m1
-  let resS := if r.spawnl then (if res then "ok" else "err") else toString res
+  let resS := if r.spawnl then (if res then "ok" else "err") else if r.kind == "unlink" then "unit" else toString res
   (m2, resS, c, mid, g.beyond)
 
 def showSnap (t : State) (sep : String) : String :=
@@ -209,8 +223,17 @@ def raceStep (r : Race) (impl : String) : StepOut :=
         (if ok cur then [] else ["C05.ok race-snapshot"])
         -- both threads parked outside the tree lock: the link maps are consistent in the middle of the exit too
         ++ (if linksOk midI && setsOk midI && stoppedOk midI then [] else ["C05.ok mid-exit-snapshot"])
-        ++ (if ir == "false" || ir == "err" || cur.status c == .stopped then [] else ["C05.race-orphan"])
-        ++ (if (List.range (r.nc + 1)).all (fun i => cur.status i == .stopped) then [] else ["C05.subtree-dies"])
+        ++ (if r.kind == "relink" || r.kind == "unlink" || ir == "false" || ir == "err" || cur.status c == .stopped
+            then [] else ["C05.race-orphan"])
+        -- a child handed over to a healthy supervisor (or unlinked) before the exiting one took its
+        -- children must not be taken down by that exit: it is no longer linked beneath it
+        ++ (if (r.kind == "relink" && ir == "true" || r.kind == "unlink") && !pts.contains "tree.take" then
+              (if cur.status 1 == .running && (r.kind == "unlink" || cur.sup 1 == some c) then []
+               else ["C05.killed-by-former-supervisor"])
+            else [])
+        ++ (if r.kind == "relink" || r.kind == "unlink" then
+              (if cur.status 0 == .stopped then [] else ["C05.subtree-dies"])
+            else if (List.range (r.nc + 1)).all (fun i => cur.status i == .stopped) then [] else ["C05.subtree-dies"])
         ++ (if ir == "err" && cur.status c != .stopped then ["C05.spawn-err-not-stopped"] else [])
       | _, _ => ["unparsable"]
     | _ => ["unparsable"]
